@@ -84,6 +84,11 @@ def layouts(tier):
         out.append({'id': 'two-children-' + kind, 'subs': [sg('PAR', 'NONE', 162000, 270000, 7, 8, 600, 600, kind, 0),
                                                             sg('CH1', 'PAR', 162000 + 600, 270000 + 600, 7, 5, 150, 150, kind, 1),
                                                             sg('CH2', 'PAR', 162000 + 2400, 270000 + 2400, 4, 9, 150, 150, kind, 2)]})
+    # unused padding bytes after the integer records: blank and arbitrary instead of zero
+    out.append({'id': 'pad-blank', 'pad': b'    ', 'subs': [sg('A', 'NONE', -108000, -540000, 4, 5, 150, 150, 'linear', 0),
+                                                         sg('B', 'NONE', -90000, -500000, 5, 4, 600, 300, 'linear', 3)]})
+    out.append({'id': 'pad-junk', 'pad': b'\xde\xad\xbe\xef', 'subs': [sg('PAR', 'NONE', -108000, -540000, 6, 7, 600, 600, 'biquadratic', 0),
+                                                                       sg('CHD', 'PAR', -108000 + 1200, -540000 + 1800, 11, 6, 120, 120, 'biquadratic', 2)]})
     # three levels of nesting (grandchild) next to a disjoint grid in the other hemisphere
     for kind in ('linear', 'biquadratic'):
         out.append({'id': 'three-level-' + kind, 'subs': [sg('TOP', 'NONE', -108000, -540000, 6, 7, 600, 600, kind, 0),
@@ -116,8 +121,10 @@ def materialise(lay, tag):
         d = dict(s)
         d['fields'] = fields(s['kind'], s['variant'])
         subs.append(d)
+    # deliberately the SAME path for every file a worker process handles: a cache keyed on the file name that survives a
+    # replaced file shows up as values of the previous file
     path = os.path.join(SCRATCH, 'c17_%d_%s.gsb' % (os.getpid(), tag))
-    arrays = ntv2gen.write_gsb(path, subs)
+    arrays = ntv2gen.write_gsb(path, subs, pad=lay.get('pad', b'\x00' * 4))
     chk = ntv2gen.read_gsb_independent(path)
     if chk['num_file'] != len(subs) or chk['end'] != b'END':
         raise HarnessError('generated NTv2 file failed the independent reader')
